@@ -29,21 +29,25 @@
        compute_signature mac hexkey input : option bytes      None = hex::decode error
        sign_and_forward mac key_value key_guid req : fwd      handle_request_with_signature:
                               Forwarded out | BadGateway (authorization value not a HeaderValue)
+       sign_and_forward_pair mac (Some (guid, value)) req      the same, key read as one pair (a01dbe0)
        relay mac key_value key_guid req                       exempt -> Forwarded req unchanged,
                               otherwise sign_and_forward
        build_request mac now m host u hs body key_guid key    the agent's own calls
      as_sig_input m body hs u                                 the string that is MAC'd
      canon_headers hs, canon_query pairs, query_pairs q       its components
-     kv_collision pairs, repeated_header_name hs              class predicates of the recorded
-                              known finding F3 (known_findings.d/C04.json)
+     hval v                                                   what is signed of a header value
+     kv_collision pairs, repeated_header_name hs, header_value_not_utf8 hs
+                              class predicates of the recorded known finding F3 (known_findings.d/C04.json)
 
    Library behaviour that is modelled, not verified (DESIGN 2.5): HeaderMap insert/append/iter,
    Uri::path/query/Display for origin-form targets, http::request::Builder's *_ref accessors,
-   hex::encode/decode, str::trim on header values (HeaderValue::to_str only succeeds on visible
-   ASCII and TAB, where Unicode trim = ASCII trim), str::to_lowercase on URI text (http's Uri
-   only admits ASCII, where Unicode lower-casing = ASCII lower-casing).
-   Not in the model: header values with a byte >= 0x80 make headers_to_canonicalized_string
-   panic (to_str().unwrap()); that is C13's subject (F7). *)
+   hex::encode/decode, String::from_utf8_lossy ([utf8_lossy], the Utf8Chunks algorithm of
+   core::str::lossy) and str::trim ([trim_u], Unicode White_Space) on header values,
+   str::to_lowercase on URI text (http's Uri only admits ASCII, where Unicode lower-casing =
+   ASCII lower-casing).
+   Since /repo 0528025 a header value is decoded lossily before it is signed (it used to panic
+   on a byte >= 0x80, F7): valid UTF-8 is signed byte for byte (after trimming), every maximal
+   invalid subpart becomes U+FFFD -- class predicate [header_value_not_utf8], known finding F3c. *)
 From GPA Require Export Bytes AList Consts.
 
 Definition LF : bytes := [10].
@@ -106,6 +110,128 @@ Definition path_and_canon_params (u : uri) : bytes * bytes :=
   (u_path u, canon_query (query_pairs (u_query u))).
 
 (* ---------------------------------------------------------------------------------------- *)
+(* String::from_utf8_lossy and str::trim on the decoded text                                 *)
+(* ---------------------------------------------------------------------------------------- *)
+Definition REPL : bytes := [239; 191; 189].                 (* U+FFFD *)
+Definition is_cont (b : N) : bool := (128 <=? b) && (b <=? 191).
+Definition lead2 (b : N) : bool := (194 <=? b) && (b <=? 223).     (* utf8_char_width = 2 *)
+Definition lead3 (b : N) : bool := (224 <=? b) && (b <=? 239).
+Definition lead4 (b : N) : bool := (240 <=? b) && (b <=? 244).
+(* the (first, second) byte table of a three- / four-byte sequence *)
+Definition ok3 (b c : N) : bool :=
+  ((b =? 224) && (160 <=? c) && (c <=? 191)) ||
+  ((225 <=? b) && (b <=? 236) && is_cont c) ||
+  ((b =? 237) && (128 <=? c) && (c <=? 159)) ||
+  ((238 <=? b) && (b <=? 239) && is_cont c).
+Definition ok4 (b c : N) : bool :=
+  ((b =? 240) && (144 <=? c) && (c <=? 191)) ||
+  ((241 <=? b) && (b <=? 243) && is_cont c) ||
+  ((b =? 244) && (128 <=? c) && (c <=? 143)).
+
+(* one round of Utf8Chunks::next at lead byte b with rest t: (valid?, emitted bytes, remaining
+   input).  An invalid sequence emits U+FFFD for the bytes consumed so far (the lead byte and
+   the continuation bytes that were acceptable) and resumes AT the offending byte. *)
+Definition utf8_step (b : N) (t : bytes) : bool * bytes * bytes :=
+  if b <? 128 then (true, [b], t)
+  else if lead2 b then
+    match t with
+    | c1 :: t1 => if is_cont c1 then (true, [b; c1], t1) else (false, REPL, t)
+    | [] => (false, REPL, [])
+    end
+  else if lead3 b then
+    match t with
+    | c1 :: t1 =>
+        if ok3 b c1 then
+          match t1 with
+          | c2 :: t2 => if is_cont c2 then (true, [b; c1; c2], t2) else (false, REPL, t1)
+          | [] => (false, REPL, [])
+          end
+        else (false, REPL, t)
+    | [] => (false, REPL, [])
+    end
+  else if lead4 b then
+    match t with
+    | c1 :: t1 =>
+        if ok4 b c1 then
+          match t1 with
+          | c2 :: t2 =>
+              if is_cont c2 then
+                match t2 with
+                | c3 :: t3 => if is_cont c3 then (true, [b; c1; c2; c3], t3) else (false, REPL, t2)
+                | [] => (false, REPL, [])
+                end
+              else (false, REPL, t1)
+          | [] => (false, REPL, [])
+          end
+        else (false, REPL, t)
+    | [] => (false, REPL, [])
+    end
+  else (false, REPL, t).
+
+Fixpoint utf8_lossy_fuel (n : nat) (s : bytes) : bytes :=
+  match n, s with
+  | S n', b :: t => let '(_, o, r) := utf8_step b t in o ++ utf8_lossy_fuel n' r
+  | _, _ => []
+  end.
+Definition utf8_lossy (s : bytes) : bytes := utf8_lossy_fuel (length s) s.
+
+Fixpoint utf8_valid_fuel (n : nat) (s : bytes) : bool :=
+  match n, s with
+  | _, [] => true
+  | S n', b :: t => let '(ok, _, r) := utf8_step b t in ok && utf8_valid_fuel n' r
+  | O, _ :: _ => false
+  end.
+Definition utf8_valid (s : bytes) : bool := utf8_valid_fuel (length s) s.
+
+(* char::is_whitespace (White_Space): U+0009..000D, 0020 (is_space), and in UTF-8
+   U+0085 C2 85, U+00A0 C2 A0, U+1680 E1 9A 80, U+2000..200A E2 80 80..8A, U+2028/2029 E2 80 A8/A9,
+   U+202F E2 80 AF, U+205F E2 81 9F, U+3000 E3 80 80 *)
+Definition ws2 (a b : N) : bool := (a =? 194) && ((b =? 133) || (b =? 160)).
+Definition ws3 (a b c : N) : bool :=
+  ((a =? 225) && (b =? 154) && (c =? 128)) ||
+  ((a =? 226) && (b =? 128) && (((128 <=? c) && (c <=? 138)) || (c =? 168) || (c =? 169) || (c =? 175))) ||
+  ((a =? 226) && (b =? 129) && (c =? 159)) ||
+  ((a =? 227) && (b =? 128) && (c =? 128)).
+
+Fixpoint trim_start_u (s : bytes) : bytes :=
+  match s with
+  | [] => []
+  | a :: t =>
+      if is_space a then trim_start_u t
+      else match t with
+           | b :: t1 =>
+               if ws2 a b then trim_start_u t1
+               else match t1 with
+                    | c :: t2 => if ws3 a b c then trim_start_u t2 else s
+                    | [] => s
+                    end
+           | [] => s
+           end
+  end.
+
+(* the same from the end, on the reversed string (last byte first) *)
+Fixpoint trim_start_ur (s : bytes) : bytes :=
+  match s with
+  | [] => []
+  | c :: t =>
+      if is_space c then trim_start_ur t
+      else match t with
+           | b :: t1 =>
+               if ws2 b c then trim_start_ur t1
+               else match t1 with
+                    | a :: t2 => if ws3 a b c then trim_start_ur t2 else s
+                    | [] => s
+                    end
+           | [] => s
+           end
+  end.
+Definition trim_end_u (s : bytes) : bytes := rev (trim_start_ur (rev s)).
+Definition trim_u (s : bytes) : bytes := trim_end_u (trim_start_u s).
+
+(* what is signed of a header value: String::from_utf8_lossy(value.as_bytes()) ... .trim() *)
+Definition hval (v : bytes) : bytes := trim_u (utf8_lossy v).
+
+(* ---------------------------------------------------------------------------------------- *)
 (* headers_to_canonicalized_string                                                           *)
 (* ---------------------------------------------------------------------------------------- *)
 Definition headers := list (bytes * bytes).
@@ -120,9 +246,10 @@ Definition header_map (hs : headers) : list (bytes * bytes) :=
 (* key.eq_ignore_ascii_case(constants::AUTHORIZATION_HEADER) *)
 Definition is_auth_key (k : bytes) : bool := beq (lower k) (lower auth_header).
 
-(* format!("{}:{}{}", key, map[key].1.trim(), LF), skipped for the authorization header *)
+(* format!("{}:{}{}", key, map[key].1.trim(), LF), skipped for the authorization header; the
+   stored value is String::from_utf8_lossy(value.as_bytes()) *)
 Definition render_header (e : bytes * bytes) : bytes :=
-  if is_auth_key (fst e) then [] else fst e ++ [58] ++ trim (snd e) ++ LF.
+  if is_auth_key (fst e) then [] else fst e ++ [58] ++ hval (snd e) ++ LF.
 
 Definition canon_headers (hs : headers) : bytes :=
   concat (map render_header (sorted_bindings (header_map hs))).
@@ -270,6 +397,14 @@ Definition sign_and_forward (key_value key_guid : option bytes) (req : request) 
   | _, _ => Forwarded req
   end.
 
+(* since /repo a01dbe0 the handler reads `Some((key_guid, key))` from ONE accessor
+   (get_current_key_guid_and_value); the two-option form above is kept for the importers *)
+Definition sign_and_forward_pair (key : option (bytes * bytes)) (req : request) : fwd :=
+  match key with
+  | Some (guid, value) => sign_and_forward (Some value) (Some guid) req
+  | None => Forwarded req
+  end.
+
 (* handle_new_http_request's last step: exempt requests go out as they are *)
 Definition relay (key_value key_guid : option bytes) (req : request) : fwd :=
   if should_skip_sig (r_method req) (r_uri req) then Forwarded req
@@ -312,9 +447,10 @@ End Sign.
 (* what the coverage theorems speak about                                                    *)
 (* ---------------------------------------------------------------------------------------- *)
 (* the signed view of a header list: every header except the authorization header, name
-   lower-cased, value trimmed -- as a multiset (compared up to Permutation) *)
+   lower-cased, value AS RECEIVED up to surrounding blanks -- as a multiset (compared up to
+   Permutation) *)
 Definition sig_header (h : bytes * bytes) : bool := negb (is_auth_key (lower (fst h))).
-Definition hnorm (h : bytes * bytes) : bytes * bytes := (lower (fst h), trim (snd h)).
+Definition hnorm (h : bytes * bytes) : bytes * bytes := (lower (fst h), trim_u (snd h)).
 Definition hnorm_multiset (hs : headers) : list (bytes * bytes) := map hnorm (filter sig_header hs).
 
 (* the signed view of a parameter list: key lower-cased, value as is *)
@@ -346,6 +482,12 @@ Definition repeated_header_name (hs : headers) : bool :=
   has_dup (map (fun h => lower (fst h)) (filter sig_header hs)).
 Definition KnownClass_C04_repeated_header_name (hs : headers) : bool := repeated_header_name hs.
 
+(* a signed header whose value is not valid UTF-8 (every maximal invalid subpart is signed as
+   U+FFFD, so different byte strings share one canonical string) *)
+Definition header_value_not_utf8 (hs : headers) : bool :=
+  existsb (fun h => negb (utf8_valid (snd h))) (filter sig_header hs).
+Definition KnownClass_C04_header_value_not_utf8 (hs : headers) : bool := header_value_not_utf8 hs.
+
 (* ---------------------------------------------------------------------------------------- *)
 (* one call for the correspondence check                                                     *)
 (* ---------------------------------------------------------------------------------------- *)
@@ -353,7 +495,8 @@ Definition c04_uri_case (m path : bytes) (q : option bytes) :=
   let u := {| u_path := path; u_query := q |} in
   (query_pairs q, path_and_canon_params u, should_skip_sig m u, kv_collision (query_pairs q)).
 
-Definition c04_headers_case (hs : headers) := (canon_headers hs, repeated_header_name hs).
+Definition c04_headers_case (hs : headers) :=
+  (canon_headers hs, repeated_header_name hs, header_value_not_utf8 hs).
 
 Definition c04_sig_case (m body path : bytes) (q : option bytes) (hs : headers) :=
   let u := {| u_path := path; u_query := q |} in
